@@ -77,4 +77,5 @@ def main():
                 fh.write(json.dumps(r) + "\n")
 
 
-main()
+if __name__ == '__main__':
+    main()
